@@ -220,12 +220,13 @@ def run_property(pid, tier, seed):
         seen_clause = set()
         for v in floor_res.get('violations', []):
             kk = _match_known(known, pid, v)
-            if kk is None and v.get('clause') in seen_clause:
-                continue
-            seen_clause.add(v.get('clause'))
             if kk is not None:
+                # a listed finding never hides another violation of the same clause
                 known_hits.append(kk)
                 continue
+            if v.get('clause') in seen_clause:
+                continue
+            seen_clause.add(v.get('clause'))
             payload = dict(v)
             has_input = v.get('input') is not None
             payload.update({'property': pid, 'kind_of_replay': 'bounded run of the real code under runtime contracts'
